@@ -522,7 +522,9 @@ def gaussian_scale_cases(ctx, cases):
             f = {"sqrtprec": 2.0 ** e, "prec": 4.0 ** e, "cov": 4.0 ** (-e), "sqrtcov": 2.0 ** (-e)}[form]
             val = (np.asarray(base) * f).tolist() if shape != "scalar" else base * f
             meta = {"op": "gaussian", "form": form, "shape": shape, "sparse_input": False, "dim": n, "value": val,
-                    "mean": [dy(rng) for _ in range(n)], "mean_kind": "vector", "iface": ["rng", "global", "N1"][k % 3],
+                    # the mean lives on the scale of the standard deviations (2^-e), so that the read-off T = draws - offset
+                    # keeps its relative accuracy
+                    "mean": [dy(rng) * 2.0 ** (-e) for _ in range(n)], "mean_kind": "vector", "iface": ["rng", "global", "N1"][k % 3],
                     "hstep": 2.0 ** (-e), "cellname": "%s:%s*2^%d" % (form, shape, e)}
             cases.extend(split_verdict(gaussian_case(ctx, meta, states)))
 
